@@ -128,6 +128,27 @@ Proof.
 Qed.
 Print Assumptions C04_deconstruct.
 
+(* ---- a CONSTRUCT / DECONSTRUCT that stops at a template error (a binding of the wrong kind in some row) has written
+   exactly the triples produced before the failing pair -- the prefix `fst (produce ...)` -- and nothing else ---- *)
+Theorem C04_construct_template_error :
+  forall (add : bool) bulk st tmpl outs ins wb q draw r st',
+  exec bulk st (SConstruct add tmpl outs ins wb q draw) = (r, st') ->
+  static_ok (SConstruct add tmpl outs ins wb q draw) = true ->
+  (forall g, In g (ins ++ outs) -> has st g = true) -> q_ok q = true ->
+  let sent := fst (produce (output_bindings tmpl) tmpl (q_rows q) draw 0) in
+  r = (if snd (produce (output_bindings tmpl) tmpl (q_rows q) draw 0) then ROk else RErr ETemplate) /\
+  (forall g, In g outs -> forall t,
+     In t (getd st' g) <-> (if add then In t (getd st g) \/ In t sent else In t (getd st g) /\ ~ In t sent)) /\
+  (forall g, ~ In g outs -> get st' g = get st g).
+Proof.
+  intros add bulk st tmpl outs ins wb q draw r st' H HS Hall Hq sent.
+  destruct (exec_construct_sent add bulk st tmpl outs ins wb q draw r st' H HS Hall Hq) as [A B].
+  split; [exact A|]. split.
+  - intros g Hg t. specialize (B g Hg t). unfold W in B. destruct add; exact B.
+  - intros g Hg. change st' with (snd (r, st')). rewrite <- H. apply (exec_frame bulk st _ g). exact Hg.
+Qed.
+Print Assumptions C04_construct_template_error.
+
 (* ---- frame: a statement, whatever its outcome, leaves every graph it does not name as a target unchanged;
    so does a whole sequence ---- *)
 Theorem C04_frame :
